@@ -108,18 +108,18 @@ type blockScope struct {
 }
 
 type g struct {
-	r      *prng.R
-	cfg    Cfg
-	toks   []Tok
-	stmt   int
-	vars   []scopeVar
-	blocks []blockScope
-	depth  int
-	types  []string // block types defined at toplevel so far
-	nameN  int
-	plants []Plant
+	r         *prng.R
+	cfg       Cfg
+	toks      []Tok
+	stmt      int
+	vars      []scopeVar
+	blocks    []blockScope
+	depth     int
+	types     []string // block types defined at toplevel so far
+	nameN     int
+	plants    []Plant
 	stmtFirst []int
-	nlocals int
+	nlocals   int
 }
 
 var kwSet = map[string]bool{"var": true, "def": true, "eval": true, "print": true, "bind": true,
